@@ -185,8 +185,10 @@ func agree(typ reflect.Type, raw json.RawMessage, s *jsonschema.Schema, ov map[r
 	if nullable && len(typesOf(s)) > 0 && !hasNull {
 		return failf("%s: pointer-ness is not expressed as an added null type (types %v)", path, typesOf(s))
 	}
-	if !nullable && hasNull && typ.Kind() != reflect.Slice && typ.Kind() != reflect.Interface {
-		return failf("%s: type %s is not behind a pointer (and is not a slice) but its schema allows null (types %v)", path, typ, typesOf(s))
+	// (slices, maps and interfaces can be nil and are written as null by encoding/json, so a null
+	// type there would be legitimate; scalars, structs and arrays never are)
+	if !nullable && hasNull && typ.Kind() != reflect.Slice && typ.Kind() != reflect.Interface && typ.Kind() != reflect.Map {
+		return failf("%s: type %s is not behind a pointer (and can never be null) but its schema allows null (types %v)", path, typ, typesOf(s))
 	}
 	switch typ.Kind() {
 	case reflect.Struct:
@@ -371,7 +373,7 @@ func checkC16(c *c16Case, rec *ev.Recorder) (fl *failure, harnessErr string) {
 		select {
 		case r := <-done:
 			return r, opts.TypeSchemas, false
-		case <-time.After(20 * time.Second):
+		case <-time.After(60 * time.Second):
 			return result{}, nil, true
 		}
 	}
@@ -379,7 +381,7 @@ func checkC16(c *c16Case, rec *ev.Recorder) (fl *failure, harnessErr string) {
 		_, ov := c.options()
 		r1, ts1, hung := call(typ)
 		if hung {
-			return failf("ForType(%s) did not return within 20s", c.GoType)
+			return failf("ForType(%s) did not return within 60s", c.GoType)
 		}
 		r2, ts2, _ := call(typ)
 		cyclic := tgen.Cyclic(typ, ov)
@@ -493,7 +495,7 @@ func checkC16(c *c16Case, rec *ev.Recorder) (fl *failure, harnessErr string) {
 func TestC16(t *testing.T) {
 	rec := ev.For("C16")
 	defer finish(rec)
-	rec.Describe("case = (type from the C04 generator plus recursive/mutually recursive pool types and unsupported kinds at any depth; ForOptions: TypeSchemas overriding 0-3 named pool types — scalars, structs incl. ones that occur embedded, std marshaler types — with self-contained marker schemas; IgnoreInvalidTypes on/off). Oracles: equal results of two calls (DeepEqual, bytes), pairwise disjoint Schema pointer sets (two results, TypeSchemas), TypeSchemas unmodified, Resolve accepts, For(*T) = For(T)+null, properties key sequence and required set agree with json.Marshal of a fully populated value at every struct level (own tag parser), overrides present wherever their type occurs, recursive => error within 20s, unsupported => error / dropped. Non-trivial: struct types with >=3 fields or an embedded struct or an override that is hit. Distinct = distinct (type, options).",
+	rec.Describe("case = (type from the C04 generator plus recursive/mutually recursive pool types and unsupported kinds at any depth; ForOptions: TypeSchemas overriding 0-3 named pool types — scalars, structs incl. ones that occur embedded, std marshaler types — with self-contained marker schemas; IgnoreInvalidTypes on/off). Oracles: equal results of two calls (DeepEqual, bytes), pairwise disjoint Schema pointer sets (two results, TypeSchemas), TypeSchemas unmodified, Resolve accepts, For(*T) = For(T)+null, properties key sequence and required set agree with json.Marshal of a fully populated value at every struct level (own tag parser), overrides present wherever their type occurs, recursive => error within 60s, unsupported => error / dropped. Non-trivial: struct types with >=3 fields or an embedded struct or an override that is hit. Distinct = distinct (type, options).",
 		"types with Go-name/JSON-name conflicts occur only in the 5% known-finding cases",
 		"the JSONSCHEMAGODEBUG=typeschemasnull=1 configuration is run by the thorough tier in a child process")
 	rapid.Check(t, func(t *rapid.T) {
